@@ -60,7 +60,8 @@ def check(rep, tier, seed):
     cases, meta = [], []
     for sh in shapes:
         d = len(sh)
-        data = [rng.randrange(-99, 1000) for _ in range(elements(sh))]
+        pz = rng.choice([0.0, 0.0, 0.6])
+        data = [0 if rng.random() < pz else rng.randrange(-99, 1000) for _ in range(elements(sh))]
         for axes in axis_requests(d, rng):
             cases.append("marg %s %s %s" % (fmt(sh), fmt(data), fmt(axes)))
             meta.append((sh, data, axes))
